@@ -1,4 +1,5 @@
 import Pyrtma.Proofs.Manager
+import Pyrtma.Proofs.ManagerId
 /-!
 # C06 — module identity: unique ids, sound dynamic ids
 
@@ -77,32 +78,7 @@ theorem assign_some_of_free (ds : Int) (md : Nat) (used : List Int) (off : Nat) 
 
 /-! ## the identity invariant -/
 
-/-- no two connected modules hold the same non-zero id unless both allow multiple instances -/
-def IdInv (s : State) : Prop :=
-  ∀ a b, a ∈ s.mods → b ∈ s.mods → a.uid ≠ b.uid → a.connected = true → b.connected = true →
-    a.modId = b.modId → a.modId ≠ 0 → a.unique = false ∧ b.unique = false
-
-theorem mem_of_find {s : State} {u : Nat} {m : Module} (h : s.find u = some m) : m ∈ s.mods := by
-  unfold State.find at h; exact List.mem_of_find?_eq_some h
-
-/-- uids in the table are pairwise distinct (each accept creates a fresh uid) -/
-def UidsDistinct (s : State) : Prop := (s.mods.map (·.uid)).Nodup
-
-theorem find_of_mem {s : State} (hd : UidsDistinct s) {m : Module} (h : m ∈ s.mods) : s.find m.uid = some m := by
-  unfold State.find UidsDistinct at *
-  generalize s.mods = l at *
-  induction l with
-  | nil => cases h
-  | cons a l ih =>
-    simp only [List.map_cons, List.nodup_cons] at hd
-    simp only [List.find?_cons]
-    cases h with
-    | head => simp
-    | tail _ h' =>
-      have : a.uid ≠ m.uid := by
-        intro e; apply hd.1; rw [e]; exact List.mem_map.mpr ⟨m, h', rfl⟩
-      have hf : (a.uid == m.uid) = false := by simpa using this
-      rw [hf]; exact ih hd.2 h'
+/-! `IdInv`, `UidsDistinct`, `find_of_mem`, `mem_of_find` are defined in `Proofs/ManagerId.lean`. -/
 
 /-- **The invariant survives everything the manager does on its own** (forwarding any frame with all nested failure
 handling, logging, removing modules): such activity only drops modules or un-connects them, it never changes an id, a
@@ -121,14 +97,6 @@ theorem idInv_of_pres {s s' : State} (hp : Pres s s') (hd : UidsDistinct s') (h 
 theorem forward_idInv (cfg : Cfg) (fuel : Nat) (s : State) (g : Frame) (hg : ∀ k, g.body ≠ .data k)
     (hd : UidsDistinct (forward cfg fuel s g)) (h : IdInv s) : IdInv (forward cfg fuel s g) :=
   idInv_of_pres (forward_ok cfg (tag_data cfg 0) fuel s g (by simpa using hg 0)).1 hd h
-
-theorem clash_false_id {me o : Module} (h : clash me o = false) (hid : o.modId = me.modId) :
-    o.unique = false ∧ me.unique = false := by
-  unfold clash at h
-  simp only [Bool.or_eq_false_iff, Bool.and_eq_false_iff, beq_eq_false_iff_ne, ne_eq] at h
-  rcases h.1 with h1 | h1
-  · exact absurd hid h1
-  · exact ⟨h1.1, h1.2⟩
 
 /-- **Accepting a connect keeps ids unique.**  Marking `u` connected with id `r` and flag `uq` preserves `IdInv`
 whenever no *other* module clashes with it in the sense of `connect_module`'s loop (`clash`), i.e. exactly under the
@@ -161,7 +129,80 @@ theorem accept_preserves (s : State) (u : Nat) (me : Module) (hme : me.uid = u)
     simp only [hau', hbu', Bool.false_eq_true, if_false] at *
     exact h a0 b0 ha0 hb0 hne hac hbc hid hnz
 
+/-! ## Globally: for every history -/
+
+/-- **At every moment no two connected modules hold the same module id unless both declared that multiple instances are
+allowed** — in the state reached by any sequence of rounds: any accepts, any CONNECT / CONNECT_V2 frames with any id,
+flag and name bytes, any disconnects and failures, any log level (including the DEBUG line inside `connect_module`'s
+loop, whose forwarding can drop modules while the loop runs over its snapshot), any number of dynamic connects. -/
+theorem ids_unique_always (cfg : Cfg) (rs : List Round) : IdInv (run cfg rs) := (run_K cfg rs).ids
+
+/-- the table never lists a connection twice, and every uid in it has been handed out by an accept -/
+theorem uids_distinct_always (cfg : Cfg) (rs : List Round) :
+    UidsDistinct (run cfg rs) ∧ ∀ m ∈ (run cfg rs).mods, m.uid ≤ (run cfg rs).nextUid :=
+  ⟨(run_K cfg rs).distinct, (run_K cfg rs).bound⟩
+
+/-- **A refused or failed request does not disturb the incumbent**: whatever a CONNECT frame from connection `u` leads to
+(accepted, refused for any reason, or the requester dying in the middle), every *other* module that is still in the table
+afterwards has the id and uniqueness flag it had, and none has become connected. -/
+theorem connect_leaves_others (cfg : Cfg) (s : State) (u : Nat) (hd : Hdr) (v : Nat) (hv : v ≠ u) (m' : Module)
+    (h : (connectModule cfg s u hd).1.find v = some m') :
+    ∃ m, s.find v = some m ∧ m'.modId = m.modId ∧ m'.unique = m.unique ∧ (m'.connected = true → m.connected = true) := by
+  -- every step of `connect_module` is an update of `u`'s own record or an `R` step
+  have key : ∀ (s0 s1 : State), (∀ w, w ≠ u → s0.find w = s.find w) → R s0 s1 → ∀ m1, s1.find v = some m1 →
+      ∃ m, s.find v = some m ∧ m1.modId = m.modId ∧ m1.unique = m.unique ∧ (m1.connected = true → m.connected = true) := by
+    intro s0 s1 h0 r m1 h1
+    obtain ⟨m, hm, a, b, c⟩ := r.shr v m1 h1
+    exact ⟨m, by rw [← h0 v hv]; exact hm, a, b, c⟩
+  have updOther : ∀ (s0 : State) (f : Module → Module), (∀ m, (f m).uid = m.uid) → ∀ w, w ≠ u →
+      (s0.upd u f).find w = s0.find w := by
+    intro s0 f hf w hw
+    rw [find_upd s0 u w f hf]
+    cases h0 : s0.find w with
+    | none => rfl
+    | some m0 =>
+      have := find_uid h0
+      simp only [Option.map_some, this]
+      have : (w == u) = false := by simpa using hw
+      simp [this]
+  unfold connectModule at h
+  dsimp only at h
+  split at h
+  · exact ⟨m', h, rfl, rfl, id⟩
+  · split at h
+    · exact key _ _ (updOther s _ (fun m => (setReq_fields cfg _ _ m).1)) ((logAt_R cfg 40 _).trans (removeModule_R cfg _ u)) m' h
+    · rename_i nm _
+      have h0 := updOther s (setAll cfg s.buf hd nm) (fun m => (setAll_fields cfg _ _ _ m).1)
+      split at h
+      · split at h
+        · exact key _ _ h0 ((logAt_R cfg 40 _).trans (removeModule_R cfg _ u)) m' h
+        · obtain ⟨rl, _⟩ := clashLoop_R cfg (setAll cfg s.buf hd nm (lookupMod s u))
+            ((s.upd u (setAll cfg s.buf hd nm)).mods.filter (·.uid != u)) (s.upd u (setAll cfg s.buf hd nm))
+          generalize clashLoop cfg (setAll cfg s.buf hd nm (lookupMod s u))
+            ((s.upd u (setAll cfg s.buf hd nm)).mods.filter (·.uid != u)) (s.upd u (setAll cfg s.buf hd nm)) = r at rl h
+          obtain ⟨s2, cl⟩ := r
+          dsimp only at rl h
+          split at h
+          · exact key _ _ h0 ((rl.trans (logAt_R cfg 40 _)).trans (removeModule_R cfg _ u)) m' h
+          · have h' : (s2.upd u (fun m => { m with connected := true })).find v = some m' := h
+            rw [updOther s2 (fun m => { m with connected := true }) (fun _ => rfl) v hv] at h'
+            exact key _ _ h0 rl m' h'
+      · split at h
+        · exact key _ _ h0 ((logAt_R cfg 40 _).trans (removeModule_R cfg _ u)) m' h
+        · rename_i id off _
+          have h' : (State.upd ({ (s.upd u (setAll cfg s.buf hd nm)) with nextDyn := off } : State) u
+              (fun m => { m with modId := id, connected := true })).find v = some m' := h
+          rw [updOther _ (fun m => { m with modId := id, connected := true }) (fun _ => rfl) v hv] at h'
+          exact ⟨m', by rw [← h0 v hv]; exact h', rfl, rfl, fun x => x⟩
+
 /-! ### Non-vacuity -/
+/-- two clients ask for id 10: the second is refused and closed, the first keeps it -/
+def exRounds : List Round :=
+  [{ accept := true }, { accept := true },
+   { reads := [{ uid := 1, h := { mtype := 13, src := 10, nbytes := 4 }, avail := 4, pay := [0, 0, 0, 0] }], writable := [1, 2] },
+   { reads := [{ uid := 2, h := { mtype := 13, src := 10, nbytes := 4 }, avail := 4, pay := [0, 0, 0, 0] }], writable := [1, 2] }]
+example : ((run {} exRounds).mods.map (fun m => (m.uid, m.modId, m.connected))) = [(0, 0, true), (1, 10, true)] := by decide
+
 example : assignLoop 100 100 [0, 100, 101, 0] 100 0 = some (102, 3) := by decide
 example : assignLoop 100 3 [100, 101, 102] 3 1 = none := by decide
 example : assignLoop 100 3 [100, 102] 3 2 = some (101, 2) := by decide     -- wraps: probes 102, 100, 101
